@@ -1364,10 +1364,13 @@ def run_profile(s, o):
         if isinstance(gf, Raised):
             out['gaussian_params'] = out['gaussian_fwhm'] = out['gaussian_profile'] = gf
         else:
+            gsd = abs(float(getattr(gf.stddev, 'value', gf.stddev)))
+            # a fitted width far beyond the sampled radii (flat / rising profile) is not constrained by the data
+            unconstrained = not np.isfinite(gsd) or gsd > 10.0 * o['rmax']
             out['gaussian_params'] = np.array([float(getattr(gf.amplitude, 'value', gf.amplitude)),
                                                float(getattr(gf.mean, 'value', gf.mean)),
-                                               abs(float(getattr(gf.stddev, 'value', gf.stddev)))])
-            out['gaussian_fwhm'] = p.gaussian_fwhm
+                                               np.nan if unconstrained else gsd])
+            out['gaussian_fwhm'] = np.nan if unconstrained else p.gaussian_fwhm
             out['gaussian_profile'] = p.gaussian_profile
         dr, dp = np.asarray(p.data_radius), p.data_profile
         dpv, un = split_unit(dp)
@@ -1581,7 +1584,10 @@ def run_centroid(s, o):
         x, y = centroid_sources(s['data'], pos[:1, 0], pos[:1, 1], mask=full_mask,
                                 centroid_func=centroid_2dg, **kw)
         bs = o['box_size'] if o['footprint'] is None else o['footprint'].shape
-        out['sources_2dg'] = sane(np.column_stack([x, y]), bs, origin=(pos[0, 0] - bs[1] / 2, pos[0, 1] - bs[0] / 2))
+        c2 = sane(np.column_stack([x, y]), bs, origin=(pos[0, 0] - bs[1] / 2, pos[0, 1] - bs[0] / 2))
+        if np.all(np.isfinite(c2)) and (abs(c2[0, 0] - pos[0, 0]) > 3.0 or abs(c2[0, 1] - pos[0, 1]) > 3.0):
+            c2[:] = np.nan          # locked onto something else than the source the box is centred on (multi-modal)
+        out['sources_2dg'] = c2
     return out, None
 
 
